@@ -130,11 +130,17 @@ class RotatorProfile(HeapProfile):
             else:
                 content = {"t": t, "seed": rng.randrange(2**31)}
             o = {"op": "Q.field", "out": out, "mesh": mesh, "content": content}
+            if t == "linear" and cfg["family"] == "dyadic" and rng.random() < 0.3:
+                o["dtype"] = "int"  # integer values at the cell centres (cells and coefficients are integers there) - interpolated in between
+                content["a"] = [float(round(x)) * 2 for x in content["a"]]
             if t in ("uniform", "random3") and rng.random() < 0.5:
                 vd = rng.choice([["a", "b", "c"], ["mx", "my", "mz"], ["x", "y", "z"]])
                 perm = list(dims)
                 rng.shuffle(perm)
-                o["vdims"], o["mapping"] = vd, dict(zip(vd, perm))
+                mp = dict(zip(vd, perm))
+                keys = list(mp)
+                rng.shuffle(keys)  # the order in which the caller writes the mapping must not matter
+                o["vdims"], o["mapping"] = vd, {k: mp[k] for k in keys}
             return o
         if not rots or rng.random() < 0.12:
             return {"op": "Q.new", "on": rng.choice(fields), "out": out}
